@@ -14,7 +14,7 @@ from mdsim.props import _gen
 PROP = "C12"
 LEVEL = "exploration"
 TECHNIQUE = "deterministic simulation: seeded search over owned RNG draw schedules (S-RNG seam) + reachability reference model"
-RUNS = {"quick": 20000, "thorough": 1000000}
+RUNS = {"quick": 30000, "thorough": 1000000}
 BATCH = {"quick": 100, "thorough": 250}
 COMPONENTS = {
     "real": ["maze_dataset.generation.generators (all five)", "LatticeMaze.get_connected_component", "LatticeMaze.generate_random_path", "LatticeMaze.find_shortest_path"],
